@@ -987,6 +987,11 @@ func (m *MutableOverlayWorld) MergeInto(other MutableWorld) error {
 
 func (m *MutableOverlayWorld) Snapshot() b6.World {
 	copy := *m
+	// The index is shared with m, and resolves the features it returns via
+	// m. Give the snapshot an index over the same postings that resolves
+	// features via the snapshot itself, as later changes to m would
+	// otherwise be visible through the features returned by a search.
+	copy.index = &mutableFeatureIndex{TreeIndex: m.index.TreeIndex, features: &copy}
 	m.base = &copy
 	m.features = NewFeaturesByID()
 	m.references = NewFeatureReferences()
